@@ -642,6 +642,7 @@ class PrecipitateModel (PrecipitateBase):
                 self.PBM[p].record(t)
                 continue
             self.PBM[p].UpdatePBMEuler(t, x[p])
+            oldBounds = self.PBM[p].PSDbounds
             change, addedIndices = self.PBM[p].adjustSizeClassesEuler(all(self.growth[p] < 0))
             if change:
                 if self.precipitateParameters[p].calculateAspectRatio:
@@ -669,8 +670,20 @@ class PrecipitateModel (PrecipitateBase):
                         xBnew[failed] = self.PSDXbeta[p][addedIndices-1,0]
                         self.PSDXalpha[p][addedIndices:,0], self.PSDXbeta[p][addedIndices:,0] = xAnew, xBnew
                 else:
+                    #Carry the last valid interfacial compositions over to the new size classes
+                    #These are replaced by the growth rate calculation below unless it fails to converge, in which case it continues from these values
+                    oldXalpha, oldXbeta = self.PSDXalpha[p], self.PSDXbeta[p]
                     self.PSDXalpha[p] = np.zeros((self.PBM[p].bins + 1, self.numberOfElements))
                     self.PSDXbeta[p] = np.zeros((self.PBM[p].bins + 1, self.numberOfElements))
+                    if oldXalpha is not None and oldXbeta is not None and len(oldXalpha) == len(oldBounds):
+                        if addedIndices is not None:
+                            #Size classes were only added, the new classes start from the values of the largest previous class
+                            self.PSDXalpha[p][:len(oldXalpha)], self.PSDXalpha[p][len(oldXalpha):] = oldXalpha, oldXalpha[-1]
+                            self.PSDXbeta[p][:len(oldXbeta)], self.PSDXbeta[p][len(oldXbeta):] = oldXbeta, oldXbeta[-1]
+                        else:
+                            for e in range(self.numberOfElements):
+                                self.PSDXalpha[p][:,e] = np.interp(self.PBM[p].PSDbounds, oldBounds, oldXalpha[:,e])
+                                self.PSDXbeta[p][:,e] = np.interp(self.PBM[p].PSDbounds, oldBounds, oldXbeta[:,e])
                 self.growth, _ = self._growthRate(self.pData.copySlice(self.pData.n))
             self.PBM[p].PSD[:self.RdrivingForceIndex[p]+1] = 0
             self.PBM[p].PSD[self.PBM[p].PSDsize < self.constraints.minRadius] = 0
